@@ -1,0 +1,66 @@
+//! Virtual timestamp counter.
+//!
+//! Installed per scenario through [`crate::verif::sched::Config::clock`].
+//! Every read made through `TscTimestamp::{start,end}` is a scheduling point,
+//! logs `ts{kind,value}` and advances the counter by the scripted
+//! `read_step`. Nothing here ever consults the OS clock.
+
+use super::sched::{self, Ev, Op};
+
+/// Reads the virtual counter, or `None` when no virtual clock is installed
+/// on this thread (the caller then falls through to the hardware counter).
+#[inline]
+pub fn read(kind: &'static str) -> Option<u64> {
+    let c = sched::ctx()?;
+    if !c.sched.with_state(|st| st.clock.is_some()) {
+        return None;
+    }
+    Some(c.sched.point(c.tid, Op::Step, |st| {
+        let clock = st.clock.as_mut().unwrap();
+        let value = clock.now;
+        clock.now = clock.now.saturating_add(clock.read_step);
+        st.log(c.tid, &Ev::new("ts").s("kind", kind).u("value", value as u128));
+        value
+    }))
+}
+
+/// Frequency of the virtual counter in Hz.
+pub fn frequency() -> Option<u64> {
+    let c = sched::ctx()?;
+    c.sched.with_state(|st| st.clock.as_ref().map(|c| c.freq))
+}
+
+/// Current value without reading (no event, no advance).
+pub fn now() -> Option<u64> {
+    let c = sched::ctx()?;
+    c.sched.with_state(|st| st.clock.as_ref().map(|c| c.now))
+}
+
+/// Advances the counter by `ticks` (scripted cost of user code).
+pub fn advance(ticks: u64) {
+    if let Some(c) = sched::ctx() {
+        c.sched.with_state(|st| {
+            if let Some(clock) = &mut st.clock {
+                clock.now = clock.now.saturating_add(ticks);
+            }
+        });
+    }
+}
+
+/// Scripted timer precision in picoseconds, if the scenario fixes one.
+pub fn precision_override() -> Option<u128> {
+    let c = sched::ctx()?;
+    c.sched.with_state(|st| st.clock.as_ref().and_then(|c| c.precision_override))
+}
+
+/// Scripted overheads `[sample_loop, tally_alloc, tally_dealloc,
+/// tally_realloc]` in picoseconds.
+pub fn overheads() -> Option<[u128; 4]> {
+    let c = sched::ctx()?;
+    c.sched.with_state(|st| st.clock.as_ref().map(|c| c.overheads))
+}
+
+/// Whether a virtual clock is installed on this thread.
+pub fn installed() -> bool {
+    frequency().is_some()
+}
